@@ -99,8 +99,17 @@ let run_hist ?(two = false) (env : (n list * n list) list) (ops : string list) :
          | OutOfFuel -> String.concat "\t" (List.rev ("HANG" :: acc)))
     | o :: rest ->
         let acc = if two && rest = [] then ("#pre" ^ snapshot m) :: acc else acc in
-        (match api_mfs_step env m (parse_op o) with
-         | Done (m', r) -> go m' rest (result_s r :: acc)
+        let pop = parse_op o in
+        (* an entries call: the traversal machine must return what the proved recursion (Memfs/WalkSpec.v) denotes *)
+        let sw_ok = match pop with
+          | OEntries (s, wo) ->
+              (match api_walk_vs_spec env m s wo with
+               | Some (Done evs, Some evs') -> evs = evs'
+               | Some (OutOfFuel, Some _) -> false
+               | _ -> true)
+          | _ -> true in
+        (match api_mfs_step env m pop with
+         | Done (m', r) -> go m' rest (((if sw_ok then "" else "!SWSPEC ") ^ result_s r) :: acc)
          | Panic -> String.concat "\t" (List.rev ("PANIC" :: acc))
          | OutOfFuel -> String.concat "\t" (List.rev ("HANG" :: acc)))
   in
